@@ -47,6 +47,24 @@ func verifC01hash(data []byte) []byte { return verifC01uf32("h", data) }
 // the chunk's plaintext data.
 func verifC01key(data []byte) []byte { return verifC01uf32("k", data) }
 
+// verifC01enc stands for the chunk encryption of the encrypting short pipeline
+// (pkg/file/pipeline/encryption: "p.Data = c // replace the verbatim data with
+// the encrypted data"): the result has the length of the plaintext chunk, its
+// first 8 bytes (the encrypted span) are an uninterpreted function of the
+// plaintext chunk - so they are NOT the clear-text span in general - and the
+// payload is the plaintext payload xor-ed with the key stream key[i%32].
+func verifC01enc(data, key []byte) []byte {
+	c := make([]byte, len(data))
+	if len(data) < 8 {
+		return c
+	}
+	verifC01putLE(c[0:8], zzverif.U64Of("e", data))
+	for i := 8; i < len(data); i++ {
+		c[i] = data[i] ^ key[(i-8)%len(key)]
+	}
+	return c
+}
+
 // verifC01chunk is one intermediate chunk as seen by the short pipeline / as
 // demanded by the specification.
 type verifC01chunk struct {
@@ -54,8 +72,12 @@ type verifC01chunk struct {
 	span []byte // the Span field (short pipeline) / nil (specification)
 }
 
-// verifC01short is the stub "short pipeline": Ref = H(Data), Key = K(Data)
-// when references carry keys (refLen 64). It records what it is given.
+// verifC01short is the stub "short pipeline". It records what it is given.
+// Plain (refLen 32), standing for bmt -> store: Ref = H(Data), Data and Span
+// untouched. Encrypted (refLen 64), standing for encrypt -> bmt -> store:
+// Key = K(Data), Data is REPLACED by a fresh slice holding the encrypted chunk
+// E(Data, Key) (as the real encryption writer does), Ref = H(E(Data, Key)),
+// Span keeps the clear-text span ("always unecrypted span", pipeline.PipeWriteArgs).
 type verifC01short struct {
 	refLen int
 	seen   []verifC01chunk
@@ -67,10 +89,15 @@ func (s *verifC01short) ChainWrite(p *pipeline.PipeWriteArgs) error {
 	sp := make([]byte, len(p.Span))
 	copy(sp, p.Span)
 	s.seen = append(s.seen, verifC01chunk{data: d, span: sp})
-	p.Ref = verifC01hash(d)
 	if s.refLen == 64 {
-		p.Key = verifC01key(d)
+		key := verifC01key(d)
+		c := verifC01enc(d, key)
+		p.Data = c
+		p.Key = key
+		p.Ref = verifC01hash(c)
+		return nil
 	}
+	p.Ref = verifC01hash(d)
 	return nil
 }
 
@@ -86,7 +113,10 @@ type verifC01node struct {
 // verifC01spec is the SPECIFICATION of the tree format: the references of one
 // level are grouped left to right into chunks of at most `branching`
 // children; a chunk is span(8 bytes LE, sum of the child spans) ++ child
-// references and is referenced by H(chunk) (++ K(chunk)); a group consisting
+// references and is referenced by H(chunk), or, with encryption (refLen 64),
+// by H(E(chunk, K(chunk))) ++ K(chunk) - the address of the ENCRYPTED chunk
+// followed by the key, while the spans that are summed are always the
+// clear-text ones; a group consisting
 // of a single reference is not wrapped but carried up unchanged; repeat until
 // one reference is left. Every chunk built is appended to *out.
 func verifC01spec(level []verifC01node, branching, refLen int, out *[]verifC01chunk) verifC01node {
@@ -110,9 +140,12 @@ func verifC01spec(level []verifC01node, branching, refLen int, out *[]verifC01ch
 			data = append(data, c.ref...)
 		}
 		binary.LittleEndian.PutUint64(data[:8], span)
-		ref := verifC01hash(data)
+		var ref []byte
 		if refLen == 64 {
-			ref = append(ref, verifC01key(data)...)
+			key := verifC01key(data)
+			ref = append(verifC01hash(verifC01enc(data, key)), key...)
+		} else {
+			ref = verifC01hash(data)
 		}
 		*out = append(*out, verifC01chunk{data: data})
 		up = append(up, verifC01node{ref: ref, span: data[:8]})
